@@ -86,9 +86,26 @@ func Open(options Options) (*DB, error) {
 	if !hold {
 		return nil, ErrDatabaseIsUsing
 	}
+	// 初始化失败时需关闭已打开的文件并释放文件锁, 否则该目录无法再次打开
+	var opened bool
+	var db *DB
+	defer func() {
+		if opened {
+			return
+		}
+		if db != nil {
+			if db.activeFile != nil {
+				_ = db.activeFile.Close()
+			}
+			for _, file := range db.olderFiles {
+				_ = file.Close()
+			}
+		}
+		_ = fileLock.Unlock()
+	}()
 
 	// 初始化 DB 实例
-	db := &DB{
+	db = &DB{
 		options:         options,
 		mu:              new(sync.RWMutex),
 		olderFiles:      make(map[uint32]*datafile.DataFile),
@@ -159,6 +176,7 @@ func Open(options Options) (*DB, error) {
 		}()
 	}
 
+	opened = true
 	return db, nil
 }
 
